@@ -3,7 +3,10 @@
 
    Children that are not MergeIterators (skiplist UniIterator, table Iterator, ConcatIterator,
    ...) are abstract cursors [Leaf rev all rest]: [all] is the content in ascending key order,
-   [rest] the entries from the current position on in iteration order ([] = not valid).  The key
+   [rest] the entries from the current position on in iteration order ([] = not valid); Rewind
+   and Seek position it, Next drops the head, and Next on an exhausted cursor is outside the
+   children's contract (Panic: skl.Iterator asserts Valid, ConcatIterator dereferences its nil
+   cursor).  The key
    type, the comparison y.CompareKeys ([cmp], None = the Go panic on keys shorter than 8 bytes),
    bytes.Equal ([keqb]) and the nil slice ([knil]) are parameters; corr/CorrC21.v and props/C21.v
    instantiate them with byte strings, Keys.compare_keys, bytes_eqb and [].
